@@ -960,7 +960,8 @@ impl Formatter {
                 self.writer.write("f\"");
                 for part in parts {
                     match part {
-                        FStringPart::Literal(s) => self.writer.write(s),
+                        // Literal braces are written doubled in source; printed bare they would start an interpolation
+                        FStringPart::Literal(s) => self.writer.write(&s.replace('{', "{{").replace('}', "}}")),
                         FStringPart::Expr(expr) => {
                             self.writer.write("{");
                             self.format_expr(&expr.node);
